@@ -116,10 +116,28 @@ theorem hasRange_iff (target : Bytes) :
     | nil => exact absurd rfl hne
     | cons x xs => simp [hasRange]
 
-theorem mem_flatten (d : Deps) (r : ReqVer) : r ∈ flattenNPMDeps d ↔ r ∈ flattenRaw d := by
-  simp [flattenNPMDeps, sortDeps, List.mem_mergeSort]
+theorem insertBy_perm {α : Type} (less : α → α → Bool) (x : α) : ∀ l : List α, (insertBy less x l).Perm (x :: l)
+  | [] => List.Perm.refl _
+  | y :: ys => by
+    unfold insertBy
+    by_cases h : less y x = true
+    · simp only [h, if_true]
+      exact ((insertBy_perm less x ys).cons y).trans (List.Perm.swap x y ys)
+    · simp only [h]
+      exact List.Perm.refl _
+
+/-- the sort is a permutation: nothing is invented, nothing is dropped. -/
+theorem stableSort_perm {α : Type} (less : α → α → Bool) : ∀ l : List α, (stableSort less l).Perm l
+  | [] => List.Perm.refl _
+  | x :: xs => (insertBy_perm less x _).trans ((stableSort_perm less xs).cons x)
+
+theorem mem_stableSort {α : Type} (less : α → α → Bool) (l : List α) (a : α) : a ∈ stableSort less l ↔ a ∈ l :=
+  (stableSort_perm less l).mem_iff
 
 theorem flatten_perm (d : Deps) : (flattenNPMDeps d).Perm (flattenRaw d) :=
-  List.mergeSort_perm _ _
+  stableSort_perm _ _
+
+theorem mem_flatten (d : Deps) (r : ReqVer) : r ∈ flattenNPMDeps d ↔ r ∈ flattenRaw d :=
+  (flatten_perm d).mem_iff
 
 end DepsDev.Proofs.C18
